@@ -162,6 +162,9 @@ type c31dir struct {
 	read    int
 	frames  []int // plaintext sizes of frames not yet fully consumed (first may be partial)
 	small   bool  // a Read had a buffer smaller than what was left of the pending frame
+	nread   int
+	// reads into a window (len < cap) of a larger buffer
+	windowed int
 }
 
 func (d *c31dir) write(n int) string {
@@ -185,10 +188,26 @@ func (d *c31dir) write(n int) string {
 // readOnce performs one Read with a buffer of bs bytes; data must be pending.
 func (d *c31dir) readOnce(bs int) string {
 	buf := make([]byte, bs)
+	// every third read goes into a window of a larger buffer (len < cap), the way a caller reads a length prefix
+	// into the head of its message buffer: nothing may be written behind the window
+	d.nread++
+	var whole []byte
+	if d.nread%3 == 0 {
+		whole = bytes.Repeat([]byte{0xa5}, bs+c31Frame+64)
+		buf = whole[:bs]
+		d.windowed++
+	}
 	if len(d.frames) > 0 && bs < d.frames[0] {
 		d.small = true
 	}
 	n, err := d.r.Read(buf)
+	if whole != nil {
+		for i := bs; i < len(whole); i++ {
+			if whole[i] != 0xa5 {
+				return fmt.Sprintf("%s: Read into a %d-byte window of a %d-byte buffer returned (%d, %v) and wrote behind the window (offset %d)", d.name, bs, len(whole), n, err, i)
+			}
+		}
+	}
 	if err != nil {
 		return fmt.Sprintf("%s: Read(buf %d) with %d bytes pending = (%d, %v)", d.name, bs, d.written-d.read, n, err)
 	}
